@@ -24,7 +24,8 @@ def prepare(case):
     facs1 = []
     for f in expr["facs"]:
         ix = list(f["ix"])
-        t = proj.build_tensor(case["ops"][f["t"]], [v.upper() for v in ix], shape=[ext[v] for v in ix], name=f["t"])
+        # operands declare their shapes, or (opnoshape) leave them to be estimated from the stored coordinates
+        t = proj.build_tensor(case["ops"][f["t"]], [v.upper() for v in ix], shape=None if (case.get("opnoshape") and not case.get("ufmt")) else [ext[v] for v in ix], name=f["t"])     # (a rank declared uncompressed needs its extent)
         for tl in (tile, case.get("tile2") or {}):         # tile2: a second, non-output variable tiled as well (operands of four ranks)
             if tl and tl["v"] in ix:
                 e_, s_ = ext[tl["v"]], tl["s"]
